@@ -45,6 +45,10 @@ def _rand_bytes(rng, w):
     return bytes(rng.choice((0, 0x7F, 0x80, 0xFF, rng.randrange(256))) for _ in range(w))
 
 
+STRINGS = ["hello", "", "a\"b", "x\ny", "é", "{}", "{0} of {1}", "a{{b}}c", "Hello, {name}!", "{", "}", "%s %d", "100%", "%", "\\", "true", "null",
+           "{\"k\": 1}", "\U0001F600"]
+
+
 def gen(rng, tier, ctx):
     """case = list of static fields: (descriptor, value bytes | None)   value bytes = one encoded_value"""
     cases = []
@@ -77,7 +81,7 @@ def gen(rng, tier, ctx):
             elif r < 0.70:
                 fs.append((rng.choice(("Ljava/lang/Object;", "Ljava/lang/String;", "[I")), bytes([0x1E])))
             elif r < 0.80:
-                fs.append(("Ljava/lang/String;", ("string", rng.choice(("hello", "", "a\"b", "x\ny", "é")))))
+                fs.append(("Ljava/lang/String;", ("string", rng.choice(STRINGS))))
             elif r < 0.86:
                 fs.append(("Ljava/lang/Class;", ("type", rng.choice(("Lgen/V;", "I", "[Ljava/lang/String;")))))
             elif r < 0.90:
@@ -94,12 +98,14 @@ def gen(rng, tier, ctx):
             fs += [("I", None)] * rng.randrange(1, 4)       # fields without a value at the end
         cases.append(fs)
     cases.append([("I", bytes([0x04, 0xFF])), ("S", bytes([0x02, 0xFF])), ("J", bytes([0x06, 0xFF])), ("C", bytes([0x23, 0xFF, 0xFF]))])
+    for k in range(0, len(STRINGS), 4):                   # every string of the pool as a field constant, a few to a class
+        cases.append([("Ljava/lang/String;", ("string", t)) for t in STRINGS[k:k + 4]])
     return cases
 
 
 def build(case):
     from tools.writers.dexwriter import DexBuilder, encode_value, uleb
-    b = DexBuilder(extra_strings=["hello", "", "a\"b", "x\ny", "é"], extra_types=["Lgen/V;", "I", "[Ljava/lang/String;"])
+    b = DexBuilder(extra_strings=STRINGS, extra_types=["Lgen/V;", "I", "[Ljava/lang/String;"])
     c = b.add_class("Lgen/V;")
     for k, (desc, v) in enumerate(case):
         c.add_field("f%03d" % k, desc, access=0x8, static=True, value=("null", None) if v is not None else None)
@@ -176,8 +182,12 @@ def impl(case):
         p = printed.get("f%03d" % k)
         t = iv.get_value_type()
         printable = (t == 0x00 or 0x02 <= t < 0x17 or t in (0x1E, 0x1F)) and desc != "Ljava/lang/String;"
-        out.append([c, p if printable else None])
+        out.append([c, p if printable else None] + ([p] if t == 0x17 else []))      # a string: the literal as printed, for the oracle
     return out
+
+
+def canon(res):
+    return [r[:2] if r else r for r in res]
 
 
 def coq_input(case):
@@ -196,6 +206,17 @@ def oracle(case, res):
     if isinstance(res, Err):
         return "parsing or decompiling a generated DEX failed: %s %s" % (res.name, res.msg[:160])
     for k, ((desc, v), r) in enumerate(zip(case, res)):
+        if isinstance(v, tuple) and v[0] == "string":
+            from tools.props import c23
+            if r is None or r[0][0] != 0x17:
+                return "field f%03d: the string constant %r is reported as %r" % (k, v[1], r)
+            if r[0][1] != build(case)[2]._sidx[v[1]]:
+                return "field f%03d: the string constant %r resolves to string %d" % (k, v[1], r[0][1])
+            lit = r[2] if len(r) > 2 else None
+            units = None if lit is None else c23.java_lex(c23.utf16([ord(ch) for ch in lit]))
+            if units != c23.utf16([ord(ch) for ch in v[1]]):
+                return "field f%03d: the decompiler prints the initialiser %r for the string constant %r" % (k, lit, v[1])
+            continue
         if v is None or not isinstance(v, bytes):
             continue
         t, arg = v[0] & 0x1F, v[0] >> 5
@@ -240,4 +261,4 @@ def stats(cases, results):
 
 STREAMS = [{"name": "static-values", "gen": gen, "impl": impl, "coq_header": COQ_HEADER, "coq_type": "list Z * list Z",
             "coq_input": coq_input, "coq_obs": "obs_static", "model_vo": "Dex/EncodedValueModel.vo", "pinned": False,
-            "oracle": oracle, "stats": stats, "shard": 10}]
+            "oracle": oracle, "canon": canon, "stats": stats, "shard": 10}]
